@@ -96,6 +96,37 @@ CHECKS += [
      "note": "Premise: the body's first tag is not a wrapper or error tag and the body has >= 4 bytes (TL1 responses, all requests). Only the *rpc.Error branch is modelled for errors; error code 0 becomes -4000 by design. The flag-bit assignment is transcribed by hand and exercised bit by bit. No axioms."},
 ]
 
+CHECKS += [
+    {"id": "C24",
+     "technique": "Coq proof (both directions of accept <-> unique non-zero tags; genuine-error lemmas) + correspondence of the extracted model with the real runMain of tl2gen and tlgen on dumped tag lists",
+     "text": "10 closed theorems about transcriptions of the kernel's and the legacy generator's tag collision checks: tags_ok l = true <-> NoDup of the tags that count and every TL1 tag non-zero; a reported error names a real offender. ~340 random TL1(+TL2) schemas with 7 injected collision kinds per run (explicit=explicit, explicit=implicit CRC, zero, TL2 magic vs TL1 tag, type vs function ...); verdict, offender and tag agree; accepted lists re-checked independently; real binaries cross-checked.",
+     "note": "The tag list comes from a second parse through an overlay harness (trusted). Legacy tlgen cannot take .tl2 input; TL2 magic 0 is refused by the parser. No axioms."},
+    {"id": "C29",
+     "technique": "Coq proof (reflexivity, general extension theorem, closure under sequences of safe edits by induction) + correspondence with the real tlgen linter through S-expression dumps of the parsed schemas",
+     "text": "For any schema with distinct names lint a a = Accept; any sequence of the documented safe edits (append field under an unused bit of an existing mask, append constructor to a boxed-only type, add type, add function whose first argument is #), each judged against the base schema, is accepted; correspondence covers the repository's samples plus ~110 random pairs per run with error classes.",
+     "note": "Append-field theorems cover local masks (template-argument masks only via the general theorem); both schemas must pass tlgen individually; checkNatUsages panics on invalid schemas are not modelled. No axioms."},
+    {"id": "C30",
+     "technique": "Coq proof (per-class rejection at arbitrary position for the linter as repaired in /repo; refutation theorems for the pre-repair code and for repetition contents) + correspondence with the real linter + oracle on its verdicts",
+     "text": "22 closed statements: removing a constructor/function/field/template argument, changing a field's type (closed types), mask reference or bit, adding/removing a mask, appending an unmasked field, reusing a mask bit, turning a bare-used type into a union are each rejected wherever they occur, and the linter never panics. Correspondence on all incorrect-changes samples plus ~240 random unsafe edits at random positions per run (verdict and error class).",
+     "note": "F2 (bare flag ignored) and F3 (index panic) were genuine defects, repaired in /repo (fix: commits 03353252, 85427fb6); the model variant is read off the real code by witness pairs. Known finding F28: the linter never looks inside n*[...]. Type-change theorem is for closed types; union theorem for inspected positions. No axioms."},
+    {"id": "C28",
+     "technique": "Coq proof (PARTIAL: field-list level, abstract encoder) + correspondence of the linter model + per-instance oracle on tl2gen-generated code for both schemas of every accepted pair",
+     "text": "If lint accepts, every old field keeps its position, resolved mask and bit and a type compareTypes accepts, and an abstract field encoder gives identical bytes whenever the bits guarding appended fields are clear. Per run 5-7 accepted (old,new) pairs are generated with the current tl2gen for both schemas and ~150-250 FillRandom old values each are encoded by old, read by new and re-written byte-identically (JSON route included).",
+     "note": "PARTIAL: whole-schema soundness (lint accepts => wire compatible) is not proved and is FALSE today: known findings F28 (repetition contents invisible to the linter) and F29 (constructor tags never compared); F2 repaired in /repo. Nested types, function results and decoding are abstracted in the theorem and covered only by the generated-code oracle. No axioms."},
+    {"id": "C36",
+     "technique": "Coq proof over an abstract reliable-delivery protocol model (invariant induction over all step sequences + explicit-measure fair completion), tied to pkg/rpc/udp by T-const (simulator constants) and a per-command trace-refinement correspondence: the package's own multi-transport simulator is driven command by command through an add-only overlay, its abstract events are replayed on the extracted model and the state projections compared; oracle on Go outputs",
+     "text": "For every sequence of submit/slice/send/resend/deliver/lose/duplicate/ack/timer steps (any number of connections, any limit/window): the delivered list is always a prefix of the submitted list (exactly once, intact, in order), acked prefixes are monotone and truthful, acquired memory <= limit and equals the per-connection reservations, the waiters queue is consistent; from any reachable state with messages <= limit the loss-free completion delivers everything and returns acquired memory to 0. Per run 2000 simulator command strings (~150k commands) agree step by step with the model; 1000 more (non-stream mode, restarts) are checked by the oracle only.",
+     "note": "PARTIAL: unbounded sequence numbers (no uint32 wrap), no handshake/generations/restarts/crypto/corruption in the model; sender timer/resend machinery and ack selection are nondeterministic steps; real goroutines, sockets and wall-clock timers are exercised only through the simulator's single-threaded step functions. With restarts only panic-freedom, memory bound, no-duplication are checked by the oracle; known finding F14 (reservation leak on restart). No axioms."},
+    {"id": "C26",
+     "technique": "Coq proof of an executable model of GenerateTLO + TL1 round trip (C01) instantiated at the tls.tl IR; tie by parser-dump translator, T-const, and correspondence of real .tlo bytes decoded by the extracted dec1 and by the repo's tltls package against the model, plus a model-free oracle",
+     "text": "18 closed statements: every constructor/function listed exactly once with tag and name, no name twice, constructors in schema order and functions sorted, type name = XOR of constructor tags with arity/parameter kinds/constructor count, distinct sorted type ids, and the TLO bytes decode back (enc1_dec1 at the tls.tl IR, whose wf is evaluated on a fresh kernel dump every run). ~23 real .tlo files per run (repository + random schemas x timestamps) decoded two ways, re-encoded byte-exactly and compared with the model.",
+     "note": "PARTIAL: field type-expression trees, field flags and var numbers are not in the model (covered by full-tree agreement of the two decoders + byte-exact re-encode). Known finding F26 (builtin wrappers listed with hard-coded tags). No axioms."},
+    {"id": "C27",
+     "technique": "Certified checker (tl2_equiv, proved sound for every attribute-only compositional encoder) evaluated on kernel dumps of original and migrated schemas per migration run + model-free oracle on both freshly generated Go packages (TL2 bytes and JSON, both readers, both directions)",
+     "text": "If tl2_equiv accepts a correspondence of type instances, every compositional encoder that depends only on the compared attributes (field order, names, optionality bits, element types, ...) gives equal output under both schemas at every covered root; diagnostics are complete. Per run the migration is executed on scratch copies (cases.tl x 3 whitelists, goldmaster, random schemas), both IRs are dumped and checked (~200 roots certified), and 600-800 FillRandom values are written by the original package and re-read/re-written identically by the migrated one.",
+     "note": "PARTIAL: that the real TL2/JSON writers depend only on the compared attributes is the Tl2/Json families' model, not proved here. Known findings F27a-d (fixed arrays become vectors, size fields no longer enforced, namespace-split whitelists and a dictionary-of-Maybe case produce schemas/Go that do not compile). No axioms."},
+]
+
 _claimed = {c["id"] for c in CHECKS}
 _reasons = {
     "C32": "PHP serializers: no PHP/KPHP interpreter exists in the sandbox and nothing can be installed, so generated PHP cannot be executed; neither a correspondence check nor a failing-input search can exist (DESIGN.md section 8)",
